@@ -45,3 +45,50 @@ func NestedRevertBroken() bool {
 	})
 	return nestedBroken
 }
+
+var (
+	zeroStakeOnce   sync.Once
+	zeroStakeBroken bool
+)
+
+// ZeroStakePenaltyPanics probes, once per process, the C05 finding zero-stake-division on a
+// scratch network of configuration cfg: a house validator created with half a stake unit
+// (Stake 0, Token > 0) enters the look-back set and is then accused by a real
+// equivocation. While takePenalty still divides by that zero stake (a crash of the
+// builder that belongs to C05) the generators of C06 and C07 keep evidence against such
+// validators out; once repaired the shape is generated again.
+func ZeroStakePenaltyPanics(cfg int) bool {
+	zeroStakeOnce.Do(func() {
+		gen := []GenVal{{ID: 0, Role: 1, YOU: 1500}, {ID: 1, Role: 2, YOU: 800}, {ID: 2, Role: 3, YOU: 200}}
+		net, err := NewNet(cfg, gen)
+		if err != nil {
+			zeroStakeBroken = true // cannot probe: stay on the safe side
+			return
+		}
+		defer net.Close()
+		w := NewWorld(net)
+		defer func() {
+			if r := recover(); r != nil {
+				zeroStakeBroken = true
+			}
+		}()
+		n := int(net.Cfg.Freq) + 17
+		for i := 0; i <= n; i++ {
+			bs := BlockSpec{CB: i % 2}
+			if i == 0 {
+				bs.Pool = true
+				bs.Ops = []Op{{K: "vcreate", V: NVal - 1, M: 1, X: 4}}
+			}
+			if i == n {
+				bs.Ev = []EvSpec{{Signer: 100 + NVal - 1, Index: 1, VoteType: KPrecommit, Adv: true,
+					Pairs: []PairSpec{{Kind: KPrecommit, Hash: 0}, {Kind: KPrecommit, Hash: 1}}}}
+			}
+			step, err := w.Step(bs, Excl{})
+			if err != nil || step.Halted {
+				zeroStakeBroken = true
+				return
+			}
+		}
+	})
+	return zeroStakeBroken
+}
